@@ -85,7 +85,7 @@ Qed.
 Lemma vm_call_user n : is_builtin n = false ->
   vm_call n = if has_orule OG n then PCall (orule_id OG n)
               else match uranges n with Some rs => PPrim (MMatchCharBy rs) | None => PCall (S (List.length OG)) end.
-Proof. intros NB. unfold VmCompile.vm_call. nb_rewrite NB. reflexivity. Qed.
+Proof. intros NB. unfold VmCompile.vm_call. nb_rewrite NB. destruct (has_orule OG n); reflexivity. Qed.
 
 Lemma tok_compound emit : tok CompoundAtomic emit = emit. Proof. unfold tok. cbn. apply andb_true_r. Qed.
 Lemma tok_nonatomic emit : tok NonAtomic emit = emit. Proof. unfold tok. cbn. apply andb_true_r. Qed.
@@ -141,54 +141,60 @@ Proof. destruct (lit w [10%N] p), (lit w [13%N; 10%N] p), (lit w [13%N] p); refl
 Lemma sim_builtin f n a emit p sg : is_builtin n = true -> ident_ok OG uranges pp n = true ->
   psim (Cl (OIdent n)) (vm_call n) a emit p sg (ev (S f) a emit (EIdent n) p sg).
 Proof.
-  intros B IO. unfold ident_ok in IO. rewrite B in IO. apply builtin_in in B. unfold builtin_names in B. cbn [In] in B.
+  intros B IO. unfold ident_ok in IO. rewrite B in IO.
+  assert (HN : has_orule OG n = false) by (apply builtin_not_rule; [apply (go_names _ _ _ _ HG)|exact B]).
+  apply builtin_in in B. unfold builtin_names in B. cbn [In] in B.
   pose proof HE as HE'.
   repeat (destruct B as [<-|B]); try contradiction.
-  - (* ANY *) exact (psim_any cfg E w pp _ a emit p sg).
+  - (* ANY *) unfold VmCompile.vm_call. rewrite HN. exact (psim_any cfg E w pp _ a emit p sg).
   - (* EOI *)
-    change (vm_call (nm "EOI")) with (PRule (orule_id OG (nm "EOI")) (PPrim MEoi)).
+    replace (vm_call (nm "EOI")) with (PRule (orule_id OG (nm "EOI")) (PPrim MEoi)) by (unfold VmCompile.vm_call; rewrite HN; reflexivity).
     eapply psim_eq; [|apply psim_rule, psim_eoi_prim].
     change (ev (S f) a emit (EIdent (nm "EOI")) p sg) with
       (if Nat.eqb p (List.length w) then SMatch p sg (if tok a emit then [Node (rule_id G (nm "EOI")) None p p []] else []) else SFail).
     rewrite rule_id_embed. destruct (Nat.eqb p (List.length w)); reflexivity.
-  - (* SOI *) exact (psim_soi cfg E w pp _ a emit p sg).
+  - (* SOI *) unfold VmCompile.vm_call. rewrite HN. exact (psim_soi cfg E w pp _ a emit p sg).
   - (* PEEK *)
-    apply (psim_peek cfg E w pp). intros _. cbn in IO. now rewrite orb_false_r in IO.
-  - (* PEEK_ALL *) exact (psim_peek_all cfg E w pp _ a emit p sg).
+    unfold VmCompile.vm_call. rewrite HN. apply (psim_peek cfg E w pp). intros _. cbn in IO. now rewrite orb_false_r in IO.
+  - (* PEEK_ALL *) unfold VmCompile.vm_call. rewrite HN. exact (psim_peek_all cfg E w pp _ a emit p sg).
   - (* POP *)
-    eapply psim_weaken; [apply cl_pop_false|]. apply (psim_pop cfg E w pp). intros _. cbn in IO. now rewrite orb_false_r in IO.
+    unfold VmCompile.vm_call. rewrite HN. eapply psim_weaken; [apply cl_pop_false|]. apply (psim_pop cfg E w pp). intros _. cbn in IO. now rewrite orb_false_r in IO.
   - (* POP_ALL *)
-    eapply psim_weaken; [apply cl_pop_all_false|]. exact (psim_pop_all cfg E w pp a emit p sg).
-  - (* DROP *) exact (psim_drop cfg E w pp _ a emit p sg).
-  - exact (psim_range cfg E w pp _ 48 57 a emit p sg).
-  - exact (psim_range cfg E w pp _ 49 57 a emit p sg).
-  - exact (psim_range cfg E w pp _ 48 49 a emit p sg).
-  - exact (psim_range cfg E w pp _ 48 55 a emit p sg).
+    unfold VmCompile.vm_call. rewrite HN. eapply psim_weaken; [apply cl_pop_all_false|]. exact (psim_pop_all cfg E w pp a emit p sg).
+  - (* DROP *) unfold VmCompile.vm_call. rewrite HN. exact (psim_drop cfg E w pp _ a emit p sg).
+  - unfold VmCompile.vm_call. rewrite HN. exact (psim_range cfg E w pp _ 48 57 a emit p sg).
+  - unfold VmCompile.vm_call. rewrite HN. exact (psim_range cfg E w pp _ 49 57 a emit p sg).
+  - unfold VmCompile.vm_call. rewrite HN. exact (psim_range cfg E w pp _ 48 49 a emit p sg).
+  - unfold VmCompile.vm_call. rewrite HN. exact (psim_range cfg E w pp _ 48 55 a emit p sg).
   - (* HEX *)
+    unfold VmCompile.vm_call. rewrite HN.
     change (psim (Cl (OIdent (nm "ASCII_HEX_DIGIT"))) (POrElse (POrElse (prim_range 48 57) (prim_range 97 102)) (prim_range 65 70)) a emit p sg
              (one_char w (fun c => (fun c => in_range 48 57 c || in_range 97 102 c) c || in_range 65 70 c) p sg)).
     apply (psim_class_or cfg E w pp Hcfg HE'); [exact (conj Logic.I Logic.I)| |apply psim_range].
     apply (psim_class_or cfg E w pp Hcfg HE'); [exact Logic.I|apply psim_range|apply psim_range].
-  - exact (psim_range cfg E w pp _ 97 122 a emit p sg).
-  - exact (psim_range cfg E w pp _ 65 90 a emit p sg).
+  - unfold VmCompile.vm_call. rewrite HN. exact (psim_range cfg E w pp _ 97 122 a emit p sg).
+  - unfold VmCompile.vm_call. rewrite HN. exact (psim_range cfg E w pp _ 65 90 a emit p sg).
   - (* ALPHA *)
+    unfold VmCompile.vm_call. rewrite HN.
     change (psim (Cl (OIdent (nm "ASCII_ALPHA"))) (POrElse (prim_range 97 122) (prim_range 65 90)) a emit p sg
              (one_char w (fun c => in_range 97 122 c || in_range 65 90 c) p sg)).
     apply (psim_class_or cfg E w pp Hcfg HE'); [exact Logic.I|apply psim_range|apply psim_range].
   - (* ALPHANUMERIC *)
+    unfold VmCompile.vm_call. rewrite HN.
     change (psim (Cl (OIdent (nm "ASCII_ALPHANUMERIC"))) (POrElse (POrElse (prim_range 97 122) (prim_range 65 90)) (prim_range 48 57)) a emit p sg
              (one_char w (fun c => (fun c => in_range 97 122 c || in_range 65 90 c) c || in_range 48 57 c) p sg)).
     apply (psim_class_or cfg E w pp Hcfg HE'); [exact (conj Logic.I Logic.I)| |apply psim_range].
     apply (psim_class_or cfg E w pp Hcfg HE'); [exact Logic.I|apply psim_range|apply psim_range].
-  - exact (psim_range cfg E w pp _ 0 127 a emit p sg).
+  - unfold VmCompile.vm_call. rewrite HN. exact (psim_range cfg E w pp _ 0 127 a emit p sg).
   - (* NEWLINE *)
     change (ev (S f) a emit (EIdent (nm "NEWLINE")) p sg) with
       (match lit w [10%N] p with Some q => SMatch q sg [] | None =>
        match lit w [13%N; 10%N] p with Some q => SMatch q sg [] | None =>
        match lit w [13%N] p with Some q => SMatch q sg [] | None => SFail end end end).
     rewrite newline_eq.
-    change (vm_call (nm "NEWLINE")) with
-      (POrElse (POrElse (PPrim (MMatchString [10%N])) (PPrim (MMatchString [13%N; 10%N]))) (PPrim (MMatchString [13%N]))).
+    replace (vm_call (nm "NEWLINE")) with
+      (POrElse (POrElse (PPrim (MMatchString [10%N])) (PPrim (MMatchString [13%N; 10%N]))) (PPrim (MMatchString [13%N])))
+      by (unfold VmCompile.vm_call; rewrite HN; reflexivity).
     apply (psim_orelse cfg E w pp Hcfg HE' True); [| exact Logic.I | | apply psim_str].
     + cbn. split; apply valid_ascii; repeat constructor.
     + apply (psim_orelse cfg E w pp Hcfg HE' True); [| exact Logic.I | apply psim_str | apply psim_str].
